@@ -87,6 +87,16 @@ def install_env(*modules):
             m.init_logging = lambda *a, **k: SILENT
 
 
+def pick(pool, i):
+    """Concrete pool member chosen by a symbolic selector: an explicit fork per
+    member, so the chosen value is concrete on each path (indexing a list with a
+    symbolic int would give a symbolic value instead)."""
+    for k in range(len(pool)):
+        if i == k:
+            return pool[k]
+    return pool[0]
+
+
 class QuietDoc(dict):
     """A JSON object whose text rendering is constant.  Error messages in the
     repository format the whole input document (PathMatchFailure, handle_error);
